@@ -60,6 +60,19 @@ def r1_blocks(ctx):
     ok = len(c) == 1 and len(c[0].args) == 2 and U(c[0].args[1]) == "self.rref_equil" and same(c[0].args[0], "self.eqsys.eq_constants(non_precip_rids, eq_params, self.small)", scope=gk) \
         and U(kwarg(c[0], "non_precip_rids")) == "non_precip_rids" and U(kwarg(c[0], "backend")) == "self.backend"
     ctx.check(ok, a, "equil-rref-flag", "_get_A_ks must pass (eq_constants(non_precip_rids, eq_params, small), self.rref_equil, backend=, non_precip_rids=); found %s" % (U(c[0]) if c else None), node=gk)
+    # ... and hand on what it got: the (row-reduced, possibly fractional) exponent matrix and the constants are not touched here
+    rets = [n for n in walk_shallow(gk) if isinstance(n, ast.Return)]
+    passed = False
+    if len(rets) == 1 and c:
+        rv = rets[0].value
+        if rv is c[0]:
+            passed = True
+        else:
+            binds = [st for st in walk_shallow(gk) if isinstance(st, ast.Assign) and st.value is c[0]]
+            if len(binds) == 1:
+                passed = U(binds[0].targets[0]) == U(rv) and len([n for n in walk_shallow(gk) if isinstance(n, (ast.Assign, ast.AugAssign))]) == 2
+    ctx.check(passed, a, "result-handed-on", "_get_A_ks must return the pair stoichs_constants(...) computed, unchanged (a cast of the exponents truncates the fractional entries of a row-reduced matrix); found return %s"
+              % (U(rets[0].value) if rets else None), node=rets[0] if rets else gk)
     init = ctx.func(EQS, "_NumSys.__init__")
     ctx.check(has(init, "self.rref_equil = rref_equil") and has(init, "self.rref_preserv = rref_preserv"), EQS + ":_NumSys.__init__", "flags-stored", "rref flags crossed in the constructor", node=init)
     # params layout on the producer side
@@ -449,7 +462,7 @@ def r4_helpers_defaults(ctx):
 
 
 RULES = [
-    Rule("C07-R1", r1_blocks, 18, "block structure and wiring of both formulations"),
+    Rule("C07-R1", r1_blocks, 19, "block structure and wiring of both formulations"),
     Rule("C07-R2", r2_k_opposite_q, 14, "K on the other side of Q; helpers; rref log/exp"),
     Rule("C07-R3", r3_transforms, 11, "variable transform in f == post_processor map"),
     Rule("C07-R4", r4_helpers_defaults, 32, "helper start values, constant defaults, option forwarding"),
@@ -481,3 +494,8 @@ TWINS = [
     Twin("tanh-f-rearranged", [(EQS, "ytanh = [yimax * (4 + 5 * sympy.tanh(yi)) / 8 for yimax, yi in zip(ymax, yvec)]", "ytanh = [(5 * sympy.tanh(yi) + 4) * yimax / 8 for yimax, yi in zip(ymax, yvec)]")]),
     Twin("lin-residual-commuted", [(EQS, "q / k - 1 if k != 0 else q", "-1 + q / k if k != 0 else q")]),
 ]
+
+MUTANTS.append(Mutant("get-A-ks-int-cast", [(EQS, "        return self.eqsys.stoichs_constants(\n            self.eqsys.eq_constants(non_precip_rids, eq_params, self.small),\n            self.rref_equil,\n            backend=self.backend,\n            non_precip_rids=non_precip_rids,\n        )\n",
+                                              "        A, ks = self.eqsys.stoichs_constants(\n            self.eqsys.eq_constants(non_precip_rids, eq_params, self.small),\n            self.rref_equil,\n            backend=self.backend,\n            non_precip_rids=non_precip_rids,\n        )\n        return [[int(x) for x in row] for row in A], ks\n")], "C07-R1", "result-handed-on"))
+TWINS.append(Twin("get-A-ks-unpacked", [(EQS, "        return self.eqsys.stoichs_constants(\n            self.eqsys.eq_constants(non_precip_rids, eq_params, self.small),\n            self.rref_equil,\n            backend=self.backend,\n            non_precip_rids=non_precip_rids,\n        )\n",
+                                          "        A, ks = self.eqsys.stoichs_constants(\n            self.eqsys.eq_constants(non_precip_rids, eq_params, self.small),\n            self.rref_equil,\n            backend=self.backend,\n            non_precip_rids=non_precip_rids,\n        )\n        return A, ks\n")]))
